@@ -115,6 +115,11 @@ template <class G> void run_c01(vf::Report& R) {
       ref::Real sc = std::max((ref::Real)1, std::max(linx, vf::maxabs(pl)));
       ref::Real d = vf::maxabs((vf::toL(r) - e)) / sc;
       if (!(d == d)) d = INFINITY;
+      {
+        ref::Real dt = g.diff_act_terms(Mx, pl, vf::toL(r));
+        if (!R.judge("act_is_matrix_action_termwise", dt, B::B1, key))
+          R.fail("act_is_matrix_action_termwise", "act/" + key, dt, B::B1, dx + "," + vf::kv("p", vf::hexvec(p)) + "," + vf::kv("act", vf::decvec(r)) + "," + vf::kv("ref", vf::decvec(e)) + "}");
+      }
       if (!R.judge("act_is_matrix_action", d, B::B1, key))
         R.fail("act_is_matrix_action", "act/" + key, d, B::B1, dx + "," + vf::kv("p", vf::hexvec(p)) + "," + vf::kv("act", vf::decvec(r)) + "," + vf::kv("ref", vf::decvec(e)) + "}");
     }
@@ -132,6 +137,13 @@ template <class G> void run_c01(vf::Report& R) {
       ref::Real lin = g.lin_scale_M(Mx.cwiseAbs() * My.cwiseAbs());
       ref::Real d = g.diffM(vf::Mof(Z), E, lin);
       std::string dd = dx + "," + vf::kv("Y", vf::hexvec(Y.coeffs())) + "," + vf::kv("Y_dec", vf::decvec(Y.coeffs()));
+      {
+        // term-aware residual on the affine entries (see ref.hpp): catches a dropped or mis-scaled term of one entry that is small
+        // compared with the largest entry of the matrix (seed C01c: the boost term t_b*v_a of the Galilean product)
+        ref::Real dt = g.diff_prod_terms(Mx, My, vf::Mof(Z));
+        if (!R.judge("compose_is_matrix_product_termwise", dt, B::B1, key))
+          R.fail("compose_is_matrix_product_termwise", "compose/" + key, dt, B::B1, dd + "," + vf::kv("Z", vf::decvec(Z.coeffs())) + "," + vf::kv("M_ref", vf::decmat(E)) + "}");
+      }
       if (!R.judge("compose_is_matrix_product", d, B::B1, key))
         R.fail("compose_is_matrix_product", "compose/" + key, d, B::B1, dd + "," + vf::kv("Z", vf::decvec(Z.coeffs())) + "," + vf::kv("M_ref", vf::decmat(E)) + "}");
       ref::Real nd = vf::norm_dev(Z);
